@@ -84,6 +84,7 @@ class KernelEval:
         self.summary = Summary()
         self.accs: Dict[str, Acc] = {}
         self.grid_vars: List[str] = []
+        self.extents: Dict[str, str] = {}    # num_edges -> edge_centers.shape[0]
 
     # -- expressions ------------------------------------------------------------
     def idx_text(self, e: ast.expr) -> str:
@@ -255,6 +256,11 @@ class KernelEval:
                 v = s.value
                 # array alias / allocation at top level
                 if not self.loops:
+                    # num_edges = edge_centers.shape[0] / n = len(x): a name for an extent
+                    if (isinstance(v, ast.Subscript) and isinstance(v.value, ast.Attribute) and v.value.attr == "shape") or \
+                            (isinstance(v, ast.Call) and getattr(v.func, "id", "") == "len" and len(v.args) == 1):
+                        self.extents[t.id] = self.extent_text(v)
+                        return
                     if isinstance(v, ast.Subscript) and isinstance(v.value, ast.Name):
                         idxs = v.slice.elts if isinstance(v.slice, ast.Tuple) else [v.slice]
                         self.alias[t.id] = (v.value.id, [self.idx_text(i) for i in idxs])
@@ -301,6 +307,8 @@ class KernelEval:
         # len(x) == x.shape[0]
         if isinstance(e, ast.Call) and getattr(e.func, "id", "") == "len" and len(e.args) == 1:
             return f"{norm(e.args[0])}.shape[0]"
+        if isinstance(e, ast.Name) and e.id in self.extents:
+            return self.extents[e.id]
         return norm(e)
 
 
